@@ -10,7 +10,7 @@ from irsym.term import Term
 
 OPS = dict(DEFAULT=1, SIZED=2, EXTERNAL=3, FROMLIST=4, ALIGNED=5, COPYCON=6, MOVECON=7, DESTROY=8, COPYASSIGN=9, MOVEASSIGN=10,
            SETBACKING=11, EXPR=12, PLAININC=13, PLAINDEC=14, SCALE=15, DIVIDE=16, EQ=17, TRACE=18, FILL=19, FROMMATRIX=20, FACTORY=21,
-           ROTMAT=22, CLEARCACHE=23, PRINT=24, GETMATRIX=25, COMPONENTS=26, ROTATE=27, UNARYVIEW=28)
+           ROTMAT=22, CLEARCACHE=23, PRINT=24, GETMATRIX=25, COMPONENTS=26, ROTATE=27, UNARYVIEW=28, CONVERT=31)
 OPNAME = {v: k for k, v in OPS.items()}
 EXPRS = {0: 'a+b', 1: 'move(a)+b', 2: 'a+move(b)', 3: 'move(a)+move(b)', 4: 'a-b', 5: 'move(a)-b', 6: '-a', 7: '-move(a)', 8: 'a*c', 9: 'move(a)*c',
          10: 'c*a', 11: 'c*move(a)', 12: 'iCommutator(a,b)', 13: 'ACommutator(a,b)', 14: 'a.Evolve(b,c)', 15: 'a.Evolve(buf)', 16: 'ElementwiseProduct(a,b)',
@@ -30,7 +30,7 @@ class Ins:
         self.preload = preload
 
     def constructs(self):
-        return self.op in CONSTRUCTS or (self.op == OPS['EXPR'] and self.x // 32 == 3)
+        return self.op in CONSTRUCTS or (self.op == OPS['EXPR'] and self.x // 32 == 3) or (self.op == OPS['CONVERT'] and self.x in (0, 5))
 
     def describe(self):
         nm = OPNAME[self.op]
@@ -153,7 +153,7 @@ class Pool:
             for r in self.step(s, Ins('CLEARCACHE')):
                 if r.status != 'ok':
                     return False, 'clear_mem_cache: %s %r' % (r.status, r.info)
-                leaked = r.state.live_heap(('new[]', 'new', 'malloc'))
+                leaked = r.state.live_heap(('new[]', 'new') if leaks == 'new' else ('new[]', 'new', 'malloc'))
                 if leaked and leaks:
                     return False, 'leak: %d block(s) never released (%s)' % (len(leaked), ', '.join('%s %d bytes' % (o.kind, o.size) for o in leaked[:3]))
         return True, None
